@@ -1,0 +1,17 @@
+// Copyright 2026 Juan Pablo Tosso and the OWASP Coraza contributors
+// SPDX-License-Identifier: Apache-2.0
+
+//go:build verif
+
+package coraza
+
+import "github.com/corazawaf/coraza/v3/internal/corazawaf"
+
+// VerifUnwrap exposes the internal WAF behind the public wrapper. It exists
+// only with the "verif" build tag, for experimental/verifapi.
+func VerifUnwrap(w WAF) *corazawaf.WAF {
+	if ww, ok := w.(wafWrapper); ok {
+		return ww.waf
+	}
+	return nil
+}
